@@ -342,3 +342,18 @@ func (r *Run) Guard(what string, fn func()) {
 		r.T.Fatalf("VERIF-FAIL kind=panic")
 	}
 }
+
+// SlowLogger is a utils.Logger whose calls take time: inside a simulation each
+// call is a yield point (also when the middleware logs inside a critical section).
+type SlowLogger struct{}
+
+func slowLog() {
+	if s := simrt.Active(); s != nil {
+		s.Yield()
+	}
+}
+
+func (SlowLogger) Debug(string, ...interface{}) { slowLog() }
+func (SlowLogger) Info(string, ...interface{})  { slowLog() }
+func (SlowLogger) Warn(string, ...interface{})  { slowLog() }
+func (SlowLogger) Error(string, ...interface{}) { slowLog() }
